@@ -395,6 +395,9 @@ func (c *Conn) receive(ctx context.Context) error {
 			}
 		case rpccp.Message_Which_call:
 			call, err := recv.Call()
+			if err == nil && !call.IsValid() {
+				err = fail("null pointer") // call.Message() would be nil
+			}
 			if err != nil {
 				releaseRecv()
 				c.reportf("read call: %v", err)
@@ -405,6 +408,9 @@ func (c *Conn) receive(ctx context.Context) error {
 			}
 		case rpccp.Message_Which_return:
 			ret, err := recv.Return()
+			if err == nil && !ret.IsValid() {
+				err = fail("null pointer") // ret.Message() would be nil
+			}
 			if err != nil {
 				releaseRecv()
 				c.reportf("read return: %v", err)
